@@ -1,5 +1,6 @@
 #!/bin/sh
 # tools/seed_matrix.sh <seeddir> [all]: apply each seed to /repo, run the owning check (or all 20 in parallel), revert.
+[ -z "$(git -C /repo status --porcelain)" ] || { echo "REFUSING: /repo has uncommitted changes (this tool ends with git checkout -- .)"; exit 4; }
 src="$1"; mode="$2"
 out="$src/matrix.tsv"; : > "$out"
 for d in "$src"/C*/; do
